@@ -19,6 +19,9 @@ pub fn history_report(case: &Case, o: Oracles, nontrivial: fn(&Stats, &Case) -> 
     if matches!(case.start, Start::Foreign { .. }) {
         classes.push("start_foreign".into());
     }
+    if matches!(case.start, Start::Deviant { .. }) {
+        classes.push("start_deviant".into());
+    }
     classes.push(format!("version_{}", case.version));
     if let Some(m) = case.max_buf {
         classes.push(format!("max_buf_{}", m));
